@@ -244,6 +244,7 @@ def make_trick_run(kind, plan, line_preempt=False):
                     "cmd", wait_for_process=plan.get("wait", False), drop_during_process=plan.get("drop", False)))
 
             in_stop, workers, tid_of = set(), set(), {}
+            helpers_at_stop = []
             if kind == "restart":
                 orig_stop_process = trick._stop_process
 
@@ -274,6 +275,11 @@ def make_trick_run(kind, plan, line_preempt=False):
                             in_stop.discard(i)
                             worker = i in workers
                             workers.discard(i)
+                            if worker and kind == "restart":
+                                # "with all its helper threads gone": the library threads (debouncer, process watchers) that
+                                # have not ended at the instant the working stop() returns - exact under the scheduler
+                                clients = {str(k) for k in range(len(plan["threads"]))}
+                                helpers_at_stop.extend(t.name for t in sched.order if t.status != "done" and t.name not in clients)
                             log.append(f"{'stop-returned' if worker or kind != 'restart' else 'stop-noop'}:{i}@{table.clock()}")
                         elif op[0] == "sleep":
                             time.sleep(op[1] * TICK)
@@ -288,7 +294,7 @@ def make_trick_run(kind, plan, line_preempt=False):
             tricks.subprocess.Popen, tricks.kill_process = saved
         result = {"log": log, "failure": failure, "uncaught": list(sched.uncaught), "alive_end": table.alive_all(),
                   "procs": dict(table.procs), "schedule": [t[3] for t in sched.trace], "stuck": list(sched.stuck),
-                  "end_clock": table.clock(), "in_stop": sorted(in_stop)}
+                  "end_clock": table.clock(), "in_stop": sorted(in_stop), "helpers_at_stop": list(helpers_at_stop)}
         if kind == "shell" and not line_preempt and len(plan["threads"]) == 1:
             idx = {t.name: k for k, t in enumerate(sched.order)}
             ms = lambda clk: int(round((clk - BASE) * 1000))
@@ -422,6 +428,7 @@ def run(res, tier, lean, proof_breaks=(), build_log=""):
 
     # (b) tricks
     tjudged = []
+    stragglers = []      # runs in which the working stop() returned with a helper thread not yet ended (recorded finding D29)
     plans = [
         ("restart", {"lifetimes": [None, None, None, None], "threads": [[("start",), ("event",), ("event",), ("stop",)]]}),
         ("restart", {"lifetimes": [3, None, None, None], "threads": [[("start",), ("sleep", 3), ("event",), ("sleep", 2), ("stop",)]]}),
@@ -513,6 +520,8 @@ def run(res, tier, lean, proof_breaks=(), build_log=""):
             v = (judge_restart if kind == "restart" else judge_shell)(plan, result)
             if v:
                 tjudged.append((kind, plan, result, v))
+            elif kind == "restart" and result.get("helpers_at_stop"):
+                stragglers.append((plan, result))
     # tie of WD.Rst: every run explored without line-level preemption is replayed in the model on the same schedule
     routs = lean.run(rlines) if rlines else []
     rbad = [(l, i, o, plan) for l, i, o, (plan, _res) in zip(rlines, rimpl, routs, rmeta) if i != o]
@@ -600,6 +609,15 @@ def run(res, tier, lean, proof_breaks=(), build_log=""):
         res.violation(f"{'AutoRestartTrick' if kind == 'restart' else 'ShellCommandTrick'} run violates the property: {v}",
                       {"plan": plan, "schedule": result["schedule"], "process_log": result["log"], "violating_runs": len(js)},
                       signature=sig)
+    res.cov["runs_with_a_helper_thread_alive_at_stop_return"] = len(stragglers)
+    if stragglers:
+        # last: other reports look at res.violations
+        plan, result = min(stragglers, key=lambda j: len(j[1]["schedule"]))
+        res.violation("AutoRestartTrick.stop() returned while helper thread(s) of the trick had not ended yet: "
+                      f"{sorted(set(result['helpers_at_stop']))} (\"with all its helper threads gone\")",
+                      {"plan": plan, "schedule": result["schedule"], "process_log": result["log"],
+                       "helpers_alive_at_stop_return": result["helpers_at_stop"], "such_runs": len(stragglers)},
+                      signature="c18-d29-stop-returns-before-a-replaced-watcher-ended")
 
 
 def replay(res, path, lean):
